@@ -199,12 +199,19 @@ def gen_case(rng, small=False):
     n = [rng.randint(2, 9), rng.randint(2, 7), rng.randint(2, 5)]
     if small:
         n = [min(v, 5) for v in n]
+    sigma = rng.choice([0.5, 1.0, 2.0, 1.0]) * sc
+    hw = [rng.choice([0, 0.4, 0.5, 1, 1, 1.5, 2, 2.5, 3, 1.2] if not small else [0, 0.5, 1, 1, 1.5, 2]) for _ in range(3)]
+    inside_mode = rng.random() < 0.55
+    if inside_mode:                                   # every stencil fits: lattice at least 2m+1 nodes, particles central
+        cap = [4, 3, 2]
+        hw = [min(h, cap[i]) if round_half_even(Fraction(h)) <= cap[i] else cap[i] for i, h in enumerate(hw)]
+        mm = [round_half_even(Fraction(h)) for h in hw]
+        n = [max(n[i], 2 * mm[i] + 1 + rng.choice([0, 0, 1, 2])) for i in range(3)]
+        n = [min(n[0], 9), min(n[1], 7), min(n[2], 5)]
     lo = [rng.randint(-4, 2) * d[i] for i in range(3)]
     ext = []
     for i in range(3):
         ext += [lo[i], lo[i] + (n[i] - 1) * d[i]]
-    sigma = rng.choice([0.5, 1.0, 2.0, 1.0]) * sc
-    hw = [rng.choice([0, 0.4, 0.5, 1, 1, 1.5, 2, 2.5, 3, 1.2] if not small else [0, 0.5, 1, 1, 1.5, 2]) for _ in range(3)]
     nsig = [hw[i] * d[i] / sigma for i in range(3)]
     quantity = rng.choice(QUANT)
     kernel = rng.choice(["gaussian", "gaussian", "covariant"])
@@ -214,6 +221,11 @@ def gen_case(rng, small=False):
         for i in range(3):
             node = rng.randrange(n[i])
             r = rng.random()
+            if inside_mode:
+                node = rng.randint(mm[i], n[i] - 1 - mm[i])
+                r *= 0.84
+                if 0.35 <= r < 0.5 and node == n[i] - 1 - mm[i]:
+                    r = 0.0                              # the tie goes to the lower node, keep it central anyway
             if r < 0.35:
                 off = 0.0
             elif r < 0.5:
@@ -299,13 +311,14 @@ Definition cmp_run (r : result (slat Q)) (dims : Z * Z * Z) (scale : Q) (e : exp
   | _, _ => 2%nat
   end.
 (* the hypotheses of the conservation theorem, per particle whose stencil is inside: finite kernel, guard passes *)
-Definition hyp_fail (L : slat Q) (nsig : Q * Q * Q) (sigma : Q) (quantity : string) (kern : kernel) (ps : list pspec) : bool :=
+Definition hyp_fail (bad : option Q -> bool) (L : slat Q) (nsig : Q * Q * Q) (sigma : Q) (quantity : string) (kern : kernel)
+           (ps : list pspec) : bool :=
   let '(sx, sy, sz) := nsig in
   let m := (hw sx sigma (sax L), hw sy sigma (say L), hw sz sigma (saz L)) in
   existsb (fun s =>
     match prep Q 1 (sax L) (say L) (saz L) nsig sigma quantity kern (mk_part m s) with
     | Ok d => forallb (fun o => inside (sdims L) (add3 (dc d) o)) (stencil (dm d))
-              && negb (match knorm Q 0 qadd d with Some N => gen_norm_ok N | None => false end)
+              && bad (knorm Q 0 qadd d)
     | Err _ => false
     end) ps.
 Definition lens_ok (L : slat Q) (nsig : Q * Q * Q) (sigma : Q) (ps : list pspec) : bool :=
@@ -319,7 +332,9 @@ Definition check (L : slat Q) (prior : list Q) (nsig : Q * Q * Q) (sigma : Q) (q
   let c1 := cmp_run (run L nsig sigma quantity kern add ps) (sdims L) scale full in
   let c2 := worst (map (fun se => cmp_run (run L0 nsig sigma quantity kern false [fst se]) (sdims L) scale (snd se)) (combine ps singles)) in
   let c3 := if lens_ok L nsig sigma ps then 0%nat else 4%nat in
-  (Nat.max c1 (Nat.max c2 c3) + (if hyp_fail L nsig sigma quantity kern ps then 10 else 0))%nat.
+  (Nat.max c1 (Nat.max c2 c3)
+   + (if hyp_fail (fun N => match N with None => true | _ => false end) L nsig sigma quantity kern ps then 10 else 0)
+   + (if hyp_fail (fun N => match N with Some N => negb (gen_norm_ok N) | None => false end) L nsig sigma quantity kern ps then 20 else 0))%nat.
 """
 
 
@@ -480,10 +495,19 @@ def correspondence(ctx, model_ok=True):
         if code % 10 >= 2:
             out["failures"].append(Failure(c, f"model and implementation disagree (code {code}) on the deposited grid"))
         elif code >= 10:
-            out["failures"].append(Failure(shrink(c) if oracle(c) else c,
-                                           "the stencil of a particle is inside the lattice but the hypotheses of the conservation "
-                                           "theorem fail on the values the implementation computed (NaN kernel value, or the guard "
-                                           "in front of the normalisation refuses a non-zero kernel sum)"))
+            why = []
+            if (code // 10) % 2 == 1:
+                why.append("NaN kernel value: the stencil of a particle is inside the lattice but the kernel the implementation "
+                           "evaluated is not finite, so a hypothesis of the conservation theorem fails")
+            if code // 10 >= 2:
+                why.append("normalisation refused: the stencil of a particle is inside the lattice and its kernel sum is not zero, "
+                           "but the guard in front of `/= norm` does not let the normalisation happen")
+            # make the loss observable: the offending particles alone, counted by number
+            wit = [c] + [dict({k: v for k, v in c.items() if k != "prior"}, quantity="number_density", add=False, particles=[p])
+                         for p in c["particles"]]
+            bad = next((w for w in wit if oracle(w)), None)
+            for w in why:
+                out["failures"].append(Failure(shrink(bad) if bad else c, w))
     return out
 
 
